@@ -910,6 +910,13 @@ func (h *hRunner) step(op *hOp) bool {
 		}
 	}
 	if !ex.BarrierOK {
+		// the association no longer answers: if its handler (or its teardown) is parked in repository code with no
+		// datapath call outstanding, that is a wedge; otherwise nothing can be said
+		if frame, dump := vParkedHandler(); frame != "" {
+			h.res.violate(h.res.Property+".WEDGE", frame, fmt.Sprintf("after %s the association stopped answering (heartbeat barrier unanswered for %d tries); its message handler is parked in %s with no datapath call outstanding", op.Desc, p.barrierTries, frame),
+				map[string]interface{}{"goroutine": dump, "trace": append([]string{}, h.trace...)})
+			return false
+		}
 		h.res.inconclusive("barrier unanswered after " + op.Desc)
 		return false
 	}
